@@ -337,3 +337,20 @@ contract(F + "SoftAlignment.check#none", params={"self": ALIGN("SoftAlignment"),
 init_validity_contract("Alignment", "own", "cover", name="Alignment.__init__#validity-soft", recv_cls="SoftAlignment",
                        calls={"self.check": F + "SoftAlignment.check#own"})
 init_validity_contract("SoftAlignment", "own", "cover", calls={"super().__init__": F + "Alignment.__init__#validity-soft"})
+
+# ------------------------------------------------------------------------------------------ observers used by the recomputation path (C03)
+contract(F + "Alignment.annotators", params={"self": ALIGN()}, returns=ObjT("SetStr"), is_property=True, modifies=[],
+         requires=["len(self.unitary_alignments) >= 1"],
+         ensures=[cl("fresh_obj(result)", name="fresh"),
+                  cl("forall([(a, Real)], members(result)[a] == exists(i, 0, len(self.unitary_alignments[0]._n_tuple), "
+                     "self.unitary_alignments[0]._n_tuple[i][0] == a))", "C03", name="the-annotators-named-in-the-first-unitary-alignment"),
+                  cl("wfset(result)", name="sorted-enumeration"),
+                  cl("implies(forall(i1, 0, len(self.unitary_alignments[0]._n_tuple), forall(i2, i1 + 1, len(self.unitary_alignments[0]._n_tuple), "
+                     "self.unitary_alignments[0]._n_tuple[i1][0] != self.unitary_alignments[0]._n_tuple[i2][0])), "
+                     "size(result) == len(self.unitary_alignments[0]._n_tuple))", "C03", name="as-many-as-slots-when-no-name-repeats")],
+         serves={"C03"})
+
+contract(F + "Alignment.categories#attached", params={"self": ALIGN()}, is_property=True, returns_expr="some(self.continuum)._categories",
+         requires=["not isnone(self.continuum)"],
+         ensures=[cl("same_obj(result, some(self.continuum)._categories)", name="the-continuum's-live-category-set")],
+         serves={"C03"})
